@@ -519,7 +519,7 @@ def check_pool(ctx):
 
 
 def run(ctx):
-    process(ctx, gen_cases(ctx, ctx.budget(120, 1500)), ctx.budget(0.34, 1.0))
+    process(ctx, gen_cases(ctx, ctx.budget(220, 1500)), ctx.budget(0.34, 1.0))
     check_pool(ctx)
 
 
